@@ -160,3 +160,34 @@ Proof.
   intro Hrec; xl_rec Hrec.
   all: intros reach indt ack; repeat split; destruct reach, indt, ack; reflexivity.
 Qed.
+
+(* ------------------------------------------------------------------ C05 (stretch): Downtime::TriggerDowntime as a
+   state-passing function: new trigger_time and the effects in program order.  One level of the model's trigger_dt:
+   nothing happens unless dt_can_be_triggered; trigger_time is written only when it is 0; the clean-up timer is armed;
+   every EXISTING downtime chained to this one is triggered with the same instant, in the order of `triggers';
+   OnDowntimeTriggered comes last. *)
+Lemma xl_for_append_ext : forall {A E R} (p : A -> bool) (g : A -> E) (body : list E -> A -> xl_ctl (list E) R) (l : list A) (acc : list E),
+  (forall a x, In x l -> body a x = XlNext (if p x then a ++ [g x] else a)) ->
+  xl_for body l acc = inl (acc ++ map g (filter p l)).
+Proof.
+  intros A E R p g body l; induction l as [|x t IH]; intros acc H; cbn [xl_for filter map].
+  - rewrite app_nil_r; reflexivity.
+  - rewrite (H acc x (or_introl eq_refl)). rewrite IH by (intros; apply H; right; assumption).
+    destruct (p x); cbn [map]; [rewrite <- app_assoc|]; reflexivity.
+Qed.
+
+Lemma src_downtime_trigger_downtime_eq : src_downtime_trigger_downtime_recognised = true ->
+  forall now d t (ex : Z -> bool),
+    xdt src_downtime_trigger_downtime now d t (d_triggers d) ex
+    = if dt_can_be_triggered now d
+      then (if d_trigger d =? 0 then t else d_trigger d,
+            XeArmCleanup :: map (fun c => XeTriggerChild c t) (filter ex (d_triggers d)) ++ [XeTriggered])
+      else (d_trigger d, []).
+Proof.
+  intro Hrec; xl_rec Hrec.
+  all: intros now d t ex; pose proof (src_downtime_can_be_triggered_eq eq_refl now d) as Hc.
+  all: unfold xdt in *; unfold src_downtime_trigger_downtime; rewrite Hc; cbv zeta.
+  all: destruct (dt_can_be_triggered now d); cbn [negb]; [|reflexivity].
+  all: rewrite (xl_for_append_ext ex (fun c => XeTriggerChild c t)) by (intros a x _; generalize (ex x); xl_crush).
+  all: cbn [app]; destruct (d_trigger d =? 0); reflexivity.
+Qed.
